@@ -6,7 +6,8 @@
      - a segment list denotes the step function val (0 where no segment is active);
      - a mode with a start time denotes mode_val (absolute time). *)
 From SC Require Import Base.Prelude Timeline.Timestamp Timeline.Segment Timeline.Mode
-  Timeline.TimestampProofs Timeline.SegmentProofs Timeline.ShiftSumProofs Timeline.ModeProofs.
+  Timeline.TimestampProofs Timeline.SegmentProofs Timeline.ShiftSumProofs Timeline.ModeProofs
+  Timeline.C18Judge Timeline.C18JudgeProofs.
 
 (* timestamp comparison is the chronological total order and returns -1, 0 or 1 *)
 Theorem C18_compare_contract : forall a b,
@@ -152,6 +153,13 @@ Theorem C18_mode_sum_no_start : forall ms t,
             val (msegs r) t = sumZ (map (fun m => val (msegs m) t) ms).
 Proof. exact mode_sum_no_start. Qed.
 Print Assumptions C18_mode_sum_no_start.
+
+(* the predicate the check evaluates on every observation is implied by the theorems above: on
+   every input inside the guard, an observation equal to the model's output satisfies C18_ok, so
+   a non-zero verdict always involves a disagreement between code and model *)
+Theorem C18_judge_sound : forall c, C18_guard c = true -> agrees c = true -> C18_ok c = true.
+Proof. exact judge_sound. Qed.
+Print Assumptions C18_judge_sound.
 
 (* the defects of the pinned commit, kept as theorems about the old definitions *)
 Theorem C18_compare_v0_refuted :
